@@ -20,8 +20,9 @@ const CLASSES: [&str; 4] = ["Folder", "Model", "Configuration", "Part"];
 pub fn token_id(t: u8) -> Option<UniqueId> {
     match t {
         0 => None,
-        1 => Some(UniqueId::new(1, 100, 0x1111)),
-        2 => Some(UniqueId::new(2, 200, 0x2222)),
+        // differ in the time field only, negative random part (see dommodel::uid_value)
+        1 => Some(UniqueId::new(9, 100, -0x1111)),
+        2 => Some(UniqueId::new(9, 200, -0x1111)),
         _ => Some(UniqueId::nil()),
     }
 }
